@@ -221,9 +221,10 @@ def run_property(prop_id, modname, tier, seed, deadline_s=None):
     for sig, k in matched.items():
         print('KNOWN-FINDING: property=%s %s' % (prop_id, k['what']))
     rc = 0
-    os.makedirs(REPLAY_DIR, exist_ok=True)
+    rdir = REPLAY_DIR if not os.environ.get('RSOCKET_SRC') else '/var/tmp/verif_scratch_replays'
+    os.makedirs(rdir, exist_ok=True)
     for v in new:
-        path = os.path.join(REPLAY_DIR, '%s-%016x.json' % (prop_id, h64(v.signature)))
+        path = os.path.join(rdir, '%s-%016x.json' % (prop_id, h64(v.signature)))
         with open(path, 'w') as f:
             json.dump({'property': prop_id, 'module': modname, **_jsonable(v.to_dict())}, f, indent=1)
         print('VIOLATION property=%s replay=%s' % (prop_id, path))
@@ -263,11 +264,13 @@ def run_property(prop_id, modname, tier, seed, deadline_s=None):
         'wall_s': round(wall, 3),
         'violations': len(new),
     }
-    os.makedirs(EVIDENCE_DIR, exist_ok=True)
-    tmp = os.path.join(EVIDENCE_DIR, '.%s.json.tmp' % prop_id)
+    # runs against a scratch source tree (mutation testing) never touch the real evidence directory
+    evdir = EVIDENCE_DIR if not os.environ.get('RSOCKET_SRC') else '/var/tmp/verif_scratch_evidence'
+    os.makedirs(evdir, exist_ok=True)
+    tmp = os.path.join(evdir, '.%s.json.tmp' % prop_id)
     with open(tmp, 'w') as f:
         json.dump(ev, f, indent=1)
-    os.replace(tmp, os.path.join(EVIDENCE_DIR, '%s.json' % prop_id))
+    os.replace(tmp, os.path.join(evdir, '%s.json' % prop_id))
     print('%s %s: units=%d evaluations=%d states=%d transitions=%d traces=%d nontrivial=%d outcomes=%d '
           'violations(new)=%d known=%d wall=%.1fs exhaustive=%s' % (
               prop_id, tier, len(units), total.evaluations, len(total.states), total.transitions, total.traces,
